@@ -46,6 +46,10 @@ fn all_cmds(root: &str) -> Vec<Vec<String>> {
     ]
 }
 
+pub fn mutate_lines_pub(rng: &mut Rng, text: &str) -> Vec<String> {
+    mutate_lines(rng, text)
+}
+
 fn mutate_lines(rng: &mut Rng, text: &str) -> Vec<String> {
     let mut lines: Vec<String> = text.lines().map(|s| s.to_string()).collect();
     if lines.is_empty() {
